@@ -80,42 +80,59 @@ where E: Send + 'static
     }
 
     fn enque_timers(&mut self) {
-        for timer in self.timer_receiver.try_iter() {
-            match timer.1 {
-                TimerCommand::Create(e) => self.timers.insert((timer.0 .0, timer.0 .1), e),
-                TimerCommand::Cancel => self.timers.remove(&(timer.0 .0, timer.0 .1)),
-            };
+        while let Ok(timer) = self.timer_receiver.try_recv() {
+            self.enque_timer(timer);
+        }
+    }
+
+    // Applies a single timer command, the same way `enque_timers()` does.
+    fn enque_timer(&mut self, timer: (TimerId, TimerCommand<E>)) {
+        match timer.1 {
+            TimerCommand::Create(e) => self.timers.insert((timer.0 .0, timer.0 .1), e),
+            TimerCommand::Cancel => self.timers.remove(&(timer.0 .0, timer.0 .1)),
+        };
+    }
+
+    // Returns the event that must be delivered right now, if any:
+    // a priority event or, otherwise, the first timer already expired.
+    // The clock is read before processing the timer commands, in that way
+    // a timer cancelled before its deadline is never seen as expired.
+    fn ready_event(&mut self) -> Option<E> {
+        let now = Instant::now();
+        self.enque_timers();
+        if let Ok(priority_event) = self.priority_receiver.try_recv() {
+            return Some(priority_event);
+        }
+        let next_instant = *self.timers.keys().next()?;
+        if next_instant.0 <= now {
+            return self.timers.remove(&next_instant);
+        }
+        None
+    }
+
+    // Receiver that becomes ready when the next pending timer expires (or never, if none).
+    fn next_timer_expiration(&self) -> Receiver<Instant> {
+        match self.timers.keys().next() {
+            Some(next_instant) => crossbeam_channel::at(next_instant.0),
+            None => crossbeam_channel::never(),
         }
     }
 
     /// Blocks the current thread until an event is received by this queue.
     pub fn receive(&mut self) -> E {
-        self.enque_timers();
         // Since [`EventReceiver`] always has a sender attribute,
         // any call to [`receive()`] always has a living sender in that time
         // and the channel never can be considered disconnected.
-        if !self.priority_receiver.is_empty() {
-            self.priority_receiver.recv().unwrap()
-        }
-        else if self.timers.is_empty() {
+        loop {
+            if let Some(event) = self.ready_event() {
+                return event;
+            }
+            // Timers created or cancelled while waiting must wake up the receiver as well.
             select! {
-                recv(self.receiver) -> event => event.unwrap(),
-                recv(self.priority_receiver) -> event => event.unwrap(),
-            }
-        }
-        else {
-            let next_instant = *self.timers.iter().next().unwrap().0;
-            if next_instant.0 <= Instant::now() {
-                self.timers.remove(&next_instant).unwrap()
-            }
-            else {
-                select! {
-                    recv(self.receiver) -> event => event.unwrap(),
-                    recv(self.priority_receiver) -> event => event.unwrap(),
-                    recv(crossbeam_channel::at(next_instant.0)) -> _ => {
-                        self.timers.remove(&next_instant).unwrap()
-                    }
-                }
+                recv(self.receiver) -> event => return event.unwrap(),
+                recv(self.priority_receiver) -> event => return event.unwrap(),
+                recv(self.timer_receiver) -> timer => self.enque_timer(timer.unwrap()),
+                recv(self.next_timer_expiration()) -> _ => (),
             }
         }
     }
@@ -123,32 +140,22 @@ where E: Send + 'static
     /// Blocks the current thread until an event is received by this queue or timeout is exceeded.
     /// If timeout is reached a None is returned, otherwise the event is returned.
     pub fn receive_timeout(&mut self, timeout: Duration) -> Option<E> {
-        self.enque_timers();
-
-        if !self.priority_receiver.is_empty() {
-            Some(self.priority_receiver.recv().unwrap())
-        }
-        else if self.timers.is_empty() {
+        let deadline = Instant::now().checked_add(timeout);
+        loop {
+            if let Some(event) = self.ready_event() {
+                return Some(event);
+            }
+            let remaining = match deadline {
+                Some(deadline) => deadline.saturating_duration_since(Instant::now()),
+                None => timeout,
+            };
+            // Timers created or cancelled while waiting must wake up the receiver as well.
             select! {
-                recv(self.receiver) -> event => Some(event.unwrap()),
-                recv(self.priority_receiver) -> event => Some(event.unwrap()),
-                default(timeout) => None
-            }
-        }
-        else {
-            let next_instant = *self.timers.iter().next().unwrap().0;
-            if next_instant.0 <= Instant::now() {
-                self.timers.remove(&next_instant)
-            }
-            else {
-                select! {
-                    recv(self.receiver) -> event => Some(event.unwrap()),
-                    recv(self.priority_receiver) -> event => Some(event.unwrap()),
-                    recv(crossbeam_channel::at(next_instant.0)) -> _ => {
-                        self.timers.remove(&next_instant)
-                    }
-                    default(timeout) => None
-                }
+                recv(self.receiver) -> event => return Some(event.unwrap()),
+                recv(self.priority_receiver) -> event => return Some(event.unwrap()),
+                recv(self.timer_receiver) -> timer => self.enque_timer(timer.unwrap()),
+                recv(self.next_timer_expiration()) -> _ => (),
+                default(remaining) => return None,
             }
         }
     }
@@ -156,17 +163,8 @@ where E: Send + 'static
     /// Attempts to receive an event without blocking.
     /// Returns Some(E) if an event was received by this queue, otherwise returns None.
     pub fn try_receive(&mut self) -> Option<E> {
-        self.enque_timers();
-
-        if let Ok(priority_event) = self.priority_receiver.try_recv() {
-            return Some(priority_event);
-        }
-
-        if let Some(next_instant) = self.timers.iter().next() {
-            if next_instant.0 .0 <= Instant::now() {
-                let instant = *next_instant.0;
-                return self.timers.remove(&instant);
-            }
+        if let Some(event) = self.ready_event() {
+            return Some(event);
         }
 
         self.receiver.try_recv().ok()
